@@ -119,12 +119,12 @@ def oracle(sc, o):
                     if state == "running":
                         armed = False
                         if cleared:
-                            req = {"kind": "pause", "tick": tick}
+                            req = {"kind": "pause", "tick": tick, "s4": e == "S4"}
                         else:
                             return bad      # an ordinary pause: outside this property
                 elif a["a"] == "suspend":
                     if cleared and state == "running":
-                        req = {"kind": "suspend", "tick": tick}
+                        req = {"kind": "suspend", "tick": tick, "s4": e == "S4"}
                     else:
                         return bad
                 else:
@@ -153,8 +153,19 @@ def oracle(sc, o):
                         return bad
     if req is None:
         return bad
-    STATS["judged:" + req["kind"]] += 1
     t = req["tick"]
+    if req.get("s4"):
+        # the request landed in the exit sleep(0) of _run: the plan has already completed, there is no plan left to
+        # throw FailedPause into (window of findings F3/F4, properties C07/C08); what remains of the statement:
+        STATS["judged:" + req["kind"] + ":after-plan-completed"] += 1
+        last = o["returns"][-1] if o["returns"] else None
+        if last is not None and last[1] != "hang":
+            if o["final_state"] != "idle":
+                bad.append((f"not-idle:{req['kind']}", f"after the failed {req['kind']} the engine ends in state {o['final_state']!r}"))
+            if last[5] != 0:
+                bad.append((f"runs-left-open:{req['kind']}", f"after the failed {req['kind']} {last[5]} run(s) are still open"))
+        return bad
+    STATS["judged:" + req["kind"]] += 1
     throws = [(tk, y) for tk, y in zip(o["ticks"]["yields"], o["yields"]) if tk > t and y[1] == "throw"]
     fp = [(tk, y) for tk, y in throws if y[2] == "FailedPause"]
     if not fp:
